@@ -49,7 +49,7 @@ ASSUMPTIONS = [
   "all worlds start from the same state (cross-world state independence is C09); ample capacities nconmax=120 njmax=400, overflow => discarded",
   "CPU device, canonical thread order",
 ]
-BUDGET = {"quick": dict(examples=64, seconds=150, workers=16), "thorough": dict(examples=3000, seconds=1500, workers=16)}
+BUDGET = {"quick": dict(examples=64, seconds=420, workers=16), "thorough": dict(examples=3000, seconds=1500, workers=16)}
 
 _CAP = int(OT.NEFC | OT.NJMAX_NNZ | OT.BROADPHASE | OT.NARROWPHASE | OT.CCD | OT.NVMAX | OT.HFIELD | OT.EPA_HORIZON | OT.CONTACT_MATCH)
 _FIELDS = [
